@@ -20,6 +20,73 @@ def shown(cls, f, v):
     return str(v)
 
 
+# what a layer needs before its typed options mean anything on the wire
+PREP = {'ICMPv6': ['set 0 type 134'], 'PPPoE': ['set 0 code 9'],
+        ('ICMPv6', 'multicast_address_records'): ['set 0 type 143'], ('ICMPv6', 'sources'): ['set 0 type 130'], ('ICMPv6', 'multicast_addr'): ['set 0 type 130']}
+
+
+def norm_type(t):
+    return re.sub(r'\bconst\b|&|\s+|Tins::', '', t)
+
+
+TYPED_EXCLUDE = {('BootP', 'vend'), ('DHCP', 'vend')}     # the size of the vendor area is a constructor parameter of the parser, not a property of the packet
+
+
+def padded_eq(a, b):
+    """equal, or equal up to zero bytes appended to byte strings (formats with 4/8-byte granularity pad, and have no inner length)"""
+    if a == b:
+        return True
+    if a is None or b is None:
+        return False
+    # members called reserved* are not carried by the formats
+    a, b = re.sub(r'reserved\w*=[^,{}]*', 'reserved=_', a), re.sub(r'reserved\w*=[^,{}]*', 'reserved=_', b)
+    if a == b:
+        return True
+    ta, tb = re.split(r'([{},;=<>])', a), re.split(r'([{},;=<>])', b)
+    if len(ta) != len(tb):
+        return False
+    for x, y in zip(ta, tb):
+        if x == y:
+            continue
+        if x.startswith('x') and y.startswith('x') and y.startswith(x) and set(y[len(x):]) <= {'0'}:
+            continue
+        return False
+    return True
+
+
+def typed_verdict(cls, fld, lines, lh, n0):
+    """-> (category, message) for a failure, (None, None) for a round trip, (None, 'skip') when the setter refused the value"""
+    crash = [l for l in lh if l.startswith('!!')]
+    v = lines[-3].split()[3]
+    want = lh[n0][2:] if len(lh) > n0 and lh[n0].startswith('V ') else None
+    if crash:
+        empty = want in ('x', '{}') or (want or '').endswith('={}}') or '={}' in (want or '') or '=x}' in (want or '') or '=x,' in (want or '')
+        if 'reference binding to null' in crash[0] and empty:
+            return 'ub-empty', '%s.%s(%s): %s (the value holds an empty list/byte string: &v[0] of an empty vector)' % (cls, fld, want, crash[0])
+        return 'crash', '%s.%s(%s): %s' % (cls, fld, want, crash[0])
+    if len(lh) <= n0 + 1 or not lh[n0 + 1].startswith('P '):
+        return None, 'skip'
+
+    def fieldval(line):
+        d = dict(x.split('=', 1) for x in line[2:].split(' | ')[0].split(' ')[1:] if '=' in x)
+        return d.get(fld)
+    got = fieldval(lh[n0 + 1])
+    if got is not None and got.startswith('!'):
+        return 'getter-throws', '%s.%s: the getter throws (%s) right after the setter accepted %s' % (cls, fld, got, (want or '')[:100])
+    if want not in (None, '?') and got is not None and want[0] == got[0] and not padded_eq(want, got):
+        return 'set-ne-get', '%s.%s: set %s, the getter returns %s' % (cls, fld, want[:120], got[:120])
+    if len(lh) > n0 + 2 and not lh[n0 + 2].startswith('S '):
+        return 'ser-fails', '%s.%s: serialize() fails (%s) after the setter accepted %s' % (cls, fld, lh[n0 + 2][:20], (want or '')[:100])
+    if len(lh) > n0 + 3:
+        q = lh[n0 + 3]
+        if not q.startswith('Q '):
+            return 'reparse-fails', '%s.%s = %s: libtins rejects its own serialization (%s)' % (cls, fld, (want or '')[:100], q[:20])
+        back = fieldval(q)
+        if not padded_eq(got, back):
+            return 'wire-diff', '%s.%s: %s on the object, %s after serialize + parse' % (cls, fld, (got or '')[:120], (back or '')[:120])
+    return None, None
+
+
 def judge(lines, lh, stack):
     bad = [l for l in lh if l.startswith('!!')]
     if bad:
@@ -88,13 +155,53 @@ def run(ctx):
             lines = ['new ' + o, 'push ' + inner] + (['set 0 src_addr 167772161'] if o == 'IP' else []) + (['set 0 next_header 253'] if o == 'IPv6' else []) + (['set 1 next_header 253'] if inner == 'IPv6' else []) + ([] if inner == 'STP' else ['raw x0102030405060708']) + ['ser', 'view', 'rt ' + o]
             scripts.append(('p%d' % k, lines)); stacks['p%d' % k] = [o, inner]
             k += 1
+    nontriv, seen = set(), set()
+    # ---- structured values: every setter whose argument is a struct / byte string / container (typed options, ids, ...) ----
+    fl = [l.split() for l in C.run_harness('h_pkt', [('fl', ['fields'])]).get('fl', [])]
+    typed = [(t[0], t[1]) for t in fl if len(t) == 4 and t[2] in ('7', '8', '9') and t[0] in dflt and (t[0], t[1]) not in TYPED_EXCLUDE]
+    tscripts = []
+    for (cls, fld) in typed:
+        vals = list(range(0, 24)) + [rng.randrange(1 << 64) for _ in range(8 if quick else 150)]
+        prep = PREP.get((cls, fld), PREP.get(cls, []))
+        for v in vals:
+            tscripts.append(('t%d' % len(tscripts), ['new ' + cls] + prep + ['val 0 %s %d' % (fld, v), 'set 0 %s %d' % (fld, v), 'ser', 'rt ' + cls]))
+    th = C.run_harness('h_pkt', tscripts)
+    ctx.cov['evaluations'] += len(tscripts)
+    tkinds, treported = {}, 0
+    known, _ = C.load_known('C04')
+    known_typed = {}
+    for k in known:
+        if k['key'].startswith('typed-'):
+            m = re.search(r'setters: ([a-z_0-9 ]+)', k['text'])
+            for f in (m.group(1).split() if m else []):
+                known_typed[(f, k['key'][6:])] = k['text']
+    for sid, lines in tscripts:
+        lh = [l for l in th.get(sid, []) if not l.startswith('!~')]
+        cls, fld = lines[0].split()[1], lines[-3].split()[2]
+        n0 = len(lines) - 4                        # index of the 'val' line
+        cat, bad = typed_verdict(cls, fld, lines, lh, n0)
+        if cat is None:
+            if bad is None:
+                nontriv.add((cls, fld, lines[-3]))
+            continue
+        kshort = '%s %s' % (fld, cat)
+        tkinds[kshort] = tkinds.get(kshort, 0) + 1
+        if (fld, cat) in known_typed:
+            ctx.known(known_typed[(fld, cat)])
+            continue
+        if kshort in seen or treported >= 8:
+            continue
+        seen.add(kshort); treported += 1
+        ctx.violation(bad[:300], '=== replay\n' + '\n'.join(lines) + '\n--- ' + bad + '\n--- C++ output\n' + '\n'.join(l[:600] for l in lh) + '\n')
+    ctx.notes['typed_setters_swept'] = len(typed)
+    ctx.notes['typed_failure_kinds'] = tkinds
     h = C.run_harness('h_pkt', scripts)
     ctx.cov['evaluations'] += len(scripts)
     import json
     pj = os.path.join(C.V, 'corpus', 'C04_pairs.json')
     known_pairs = set(json.load(open(pj))) if os.path.exists(pj) else set()
     pair_result = {}
-    nontriv, seen, reported, kinds = set(), set(), 0, {}
+    reported, kinds = 0, {}
     for sid, lines in scripts:
         lh = [l for l in h.get(sid, []) if not l.startswith('!~')]
         bad = judge(lines, lh, stacks[sid])
